@@ -60,8 +60,9 @@ def generate(rng, tier):
         cases.append(c)
     allk = stream_cfgs_for(lambda k: True)
     for i in range(n // 2):
-        bs, w, dm, kind = allk[i % len(allk)] if i < len(allk) else rng.choice(allk)
-        key, iv = rbytes_n(rng, 8), boundary_iv(rng, bs, kind)
+        bs, w, dm, kind = pick_stream(rng, i)
+        key = rbytes_n(rng, 8)
+        iv = stream_iv(rng, bs, kind, key, dm)
         c = Case("c12_s%d" % i, "stream", bs, w, dm, tags=dict(mode=kind))
         if i % 3 < 2:
             c.op("new a %s new %s %s" % (kind, hx(key), hx(iv)))
